@@ -586,6 +586,37 @@ func suiteConc(rn *runner, r *rng, tier string) {
 		rounds, perG = 40, 150
 	}
 	for round := 0; round < rounds; round++ {
+		// a caller somewhere in the process hit a fault and recovered: Serialize of a tape with an unknown tag panics (as
+		// documented by its `panic(fmt.Errorf("unknown tag"…))`), Deserialize of a block that decodes to more bytes than
+		// announced returns an error. Whatever those paths do with the pooled compressors must not reach anybody else.
+		if round%2 == 1 {
+			if pj, err := simdjson.Parse([]byte(`{"k":[1,2.5,"s",null,true],"m":{"a":"b"}}`), nil); err == nil {
+				for _, mode := range []simdjson.CompressMode{simdjson.CompressFast, simdjson.CompressDefault, simdjson.CompressBest, simdjson.CompressNone} {
+					bad := pj.Clone(nil)
+					if len(bad.Tape) > 4 {
+						bad.Tape[3+r.intn(len(bad.Tape)-4)] = uint64(0x01)<<56 | 7
+					}
+					func() {
+						defer func() { recover() }()
+						sp := simdjson.NewSerializer()
+						sp.CompressMode(mode)
+						sp.Serialize(nil, *bad)
+					}()
+					// and a stream whose message block is announced one byte short
+					sg := simdjson.NewSerializer()
+					sg.CompressMode(mode)
+					blob := sg.Serialize(nil, *pj)
+					func() {
+						defer func() { recover() }()
+						mut := append([]byte(nil), blob...)
+						if fs := varintFields(mut); len(fs) > 4 && mut[fs[4]] > 1 && mut[fs[4]] < 0x80 {
+							mut[fs[4]]-- // the declared message size
+							simdjson.NewSerializer().Deserialize(mut, nil)
+						}
+					}()
+				}
+			}
+		}
 		nG := []int{4, 8, 16, 32, 64}[r.intn(5)]
 		type job struct {
 			ops  []string
